@@ -31,6 +31,33 @@ Section Generic.
   Fixpoint isort (l : list A) : list A :=
     match l with [] => [] | x :: r => insert x (isort r) end.
 
+  (* the same sort in O(n log n) (top-down merge sort on explicit fuel), for large key sets;
+     Proofs/SortMerge.v: equal to [isort] whenever the comparator is a total order on the keys *)
+  Fixpoint merge (l1 l2 : list A) : list A :=
+    let fix merge_aux (l2 : list A) : list A :=
+      match l1, l2 with
+      | [], _ => l2
+      | _, [] => l1
+      | a1 :: l1', a2 :: l2' =>
+          if less a2 a1 then a2 :: merge_aux l2' else a1 :: merge l1' l2
+      end in
+    merge_aux l2.
+  Fixpoint halve (l : list A) : list A * list A :=
+    match l with
+    | a :: b :: r => let '(x, y) := halve r in (a :: x, b :: y)
+    | _ => (l, [])
+    end.
+  Fixpoint msort_fuel (fuel : nat) (l : list A) : list A :=
+    match fuel with
+    | O => l
+    | S f =>
+        match l with
+        | [] | [_] => l
+        | _ => let '(x, y) := halve l in merge (msort_fuel f x) (msort_fuel f y)
+        end
+    end.
+  Definition msort (l : list A) : list A := msort_fuel (List.length l) l.
+
   (* sorter.go Reverse: `not` the comparer *)
   Definition reverse : A -> A -> bool := fun a b => negb (less a b).
 
@@ -112,15 +139,18 @@ Fixpoint lower (s : bytes) : bytes :=
   end.
 
 (* ---------------------------------------------------------------- floats as compared *)
-(* value of strconv.ParseFloat(s, 64) taken apart with math.Float64bits: m * 2^e, e >= -1074 *)
+(* value of strconv.ParseFloat(s, 64) taken apart with math.Float64bits and given as an integer
+   multiple m * 2^e (e >= 0; the harness always gives e = 0) of a power of two that is COMMON to all
+   keys of the case (2^-1074 would do for every float64; the harness takes the smallest exponent
+   occurring in the case) - comparisons do not depend on the common scale *)
 Inductive fval := FNaN | FNegInf | FPosInf | FFin (m e : Z).
-(* a non-NaN float as a point of a totally ordered set: (class, m * 2^(e+1074)) *)
+(* a non-NaN float as a point of a totally ordered set: (class, m * 2^e) *)
 Definition fnum (v : fval) : option (Z * Z) :=
   match v with
   | FNaN => None
   | FNegInf => Some ((-1)%Z, 0%Z)
   | FPosInf => Some (1%Z, 0%Z)
-  | FFin m e => Some (0%Z, (m * 2 ^ (e + 1074))%Z)
+  | FFin m e => Some (0%Z, Z.shiftl m e)   (* = m * 2^e, e >= 0 *)
   end.
 Definition plt (x y : Z * Z) : bool :=
   ((fst x <? fst y) || ((fst x =? fst y) && (snd x <? snd y)))%Z.
@@ -455,6 +485,9 @@ Inductive cin :=
 | IAx (md : bytes) (its : list item)                          (* every ordered pair, fresh sorter per pair *)
 | ISeq (md : bytes) (its : list item) (ps : list (nat * nat)) (* a sequence of comparisons on one sorter *)
 | ISort (md : bytes) (its : list item) (perms : list (list nat)) (* Sort of each arrangement, fresh sorter each *)
+| ITop (md : bytes) (its : list item) (limit reps : nat)
+  (* a large key set handed to an accessor with a row limit (MatchCounter.ItemsSortedBy(limit, ..)),
+     from [reps] arrival orders: the first [limit] rows of the full sort, every time *)
 | ICollect (md : bytes) (bykey : bool) (keys : list key) (h : list ev).
   (* a collector fed by a history of samples with intermediate reads (rendered frames); the final
      read is observed. bykey = false: items (key, total) through a NameValueSorter (counters,
@@ -490,6 +523,19 @@ Definition model0 (c : cin) : cout :=
       | Some mr =>
           let c : scmp sstate (nat * item) := fun s a b => build_cmp mr s (snd a) (snd b) in
           OSort (map (fun p => map fst (fst (sisort c s_init (map (fun i => (i, it_at its i)) p)))) perms)
+      end
+  | ITop md its limit reps =>
+      match parse_sort md with
+      | None => OErr
+      | Some (m, rv) =>
+          match mode_pure m its with
+          | None => OPanic      (* large cases are generated inside the state-free domains only *)
+          | Some f =>
+              let g := with_rev rv f in
+              let sorted := msort (fun a b : nat * item => g (snd a) (snd b))
+                                  (combine (seq 0 (List.length its)) its) in
+              OSort (repeat (map fst (firstn limit sorted)) reps)
+          end
       end
   | ICollect _ _ _ _ => OPanic   (* normalised away, see [norm] *)
   end.
@@ -558,6 +604,28 @@ Fixpoint sortedb {A} (f : A -> A -> bool) (l : list A) : bool :=
 Definition is_perm_of_seq (n : nat) (p : list nat) : bool :=
   Nat.eqb (List.length p) n && forallb (fun i => existsb (Nat.eqb i) p) (seq 0 n).
 
+(* "o is the first [limit] rows of the sorted arrangement of its", in one linear pass: the right
+   number of rows, all of them items, consecutive rows strictly ordered, and exactly |o|-1 other
+   items sort before the last row (so no omitted item does) *)
+Fixpoint adjacent_ok {A} (g : A -> A -> bool) (l : list A) : bool :=
+  match l with
+  | x :: ((y :: _) as r) => g x y && adjacent_ok g r
+  | _ => true
+  end.
+Definition top_ok (g : item -> item -> bool) (its : list item) (limit : nat) (o : list nat) : bool :=
+  let n := List.length its in
+  Nat.eqb (List.length o) (Nat.min limit n) &&
+  forallb (fun i => (i <? n)%nat) o &&
+  adjacent_ok g (map (it_at its) o) &&
+  match rev o with
+  | [] => true
+  | li :: _ =>
+      let last := it_at its li in
+      Nat.eqb (List.length (filter (fun ix : nat * item => negb (Nat.eqb (fst ix) li) && g (snd ix) last)
+                                   (combine (seq 0 n) its)))
+              (List.length o - 1)
+  end.
+
 (* The property in boolean form on an observed output.
    - the sort specification parses (an unknown sort or modifier is an error, nothing else is);
    - IAx : the decisions on distinct keys satisfy the order axioms (asymmetric, total,
@@ -565,6 +633,7 @@ Definition is_perm_of_seq (n : nat) (p : list nat) : bool :=
            domain, they are the documented order's (larger value first, numbers by magnitude,
            calendar position, chronological);
    - ISeq: the decisions are self-consistent;
+   - ITop: every arrival order yields the same rows, the first [limit] of the sorted arrangement;
    - ISort: every arrangement sorts to the same sequence, a permutation of the items, and, when
            the key set lies in a state-free domain, ordered by the documented order; for
            `contextual`, days (months) of the sorted sequence follow the hand-written calendar. *)
@@ -604,7 +673,21 @@ Definition C13_check0 (c : cin) (o : cout) : bool :=
               sortedb (cal_ok md' rv) (map (it_at its) o1)
           end
       end
-  | IAx md _, OErr | ISeq md _ _, OErr | ISort md _ _, OErr =>
+  | ITop md its limit reps, OSort outs =>
+      match parse_sort md with
+      | None => false
+      | Some (md', rv) =>
+          match mode_pure md' its with
+          | None => false
+          | Some f =>
+              Nat.eqb (List.length outs) reps &&
+              match outs with
+              | [] => true
+              | o1 :: _ => forallb (list_nat_eqb o1) outs && top_ok (with_rev rv f) its limit o1
+              end
+          end
+      end
+  | IAx md _, OErr | ISeq md _ _, OErr | ISort md _ _, OErr | ITop md _ _ _, OErr =>
       match parse_sort md with None => true | Some _ => false end
   | _, _ => false
   end.
@@ -613,7 +696,7 @@ Definition C13_check0 (c : cin) (o : cout) : bool :=
 Definition in_domain0 (c : cin) : bool :=
   match c with
   | ICollect _ _ _ _ => false
-  | IAx md its | ISeq md its _ | ISort md its _ =>
+  | IAx md its | ISeq md its _ | ISort md its _ | ITop md its _ _ =>
       match parse_sort md with
       | None => true
       | Some (m, _) => match mode_pure m its with Some _ => true | None => false end
@@ -624,6 +707,7 @@ Definition in_domain0 (c : cin) : bool :=
 Definition case_wf0 (c : cin) : bool :=
   match c with
   | ICollect _ _ _ _ => false
+  | ITop _ its _ _ => key_names_distinct its
   | IAx _ its => key_names_distinct its
   | ISeq _ its ps =>
       key_names_distinct its &&
@@ -673,3 +757,15 @@ Definition case_wf (c : cin) : bool :=
   | ICollect _ _ keys h => forallb (sampled h) (seq 0 (List.length keys))
   | _ => true
   end.
+
+(* ---------------------------------------------------------------- large key sets *)
+(* n keys built from a counter, values from a small hash (many ties); the harness builds the
+   same strings.  style 0: "k<i>" (text); style 1: the number 37*i mod 10007 (distinct for
+   i < 10007), which parses to itself *)
+Definition big_key (style : nat) (i : nat) : key :=
+  match style with
+  | O => mkkey (107%N :: itoa (Z.of_nat i)) None FmtErr []
+  | _ => let v := ((Z.of_nat i * 37) mod 10007)%Z in mkkey (itoa v) (Some (FFin v 0)) FmtErr []
+  end.
+Definition big_items (style n : nat) (a b m : Z) : list item :=
+  map (fun i => (big_key style i, ((Z.of_nat i * a + b) mod m)%Z)) (seq 0 n).
